@@ -158,6 +158,25 @@ def nested_shared_defer_doc(rng):
     return f'query Q {{ {parent} {{ {rng.choice(["", "id ", y + " "])}{body} }}{close} }}'
 
 
+def triple_nested_defer_doc(rng):
+    """Three lexically nested @defer levels A > B > C with a field selected in A and in C but not in B, B contributing
+    nothing of its own (or only what A selects too): the repeated field is a unit of work shared by A and its grandchild."""
+    leafs = ['name', 'age', 'active', 'role', 'blob', 'id', 'score']
+    parent = rng.choice(['me', 'nnMe', 'users', 'me { best', 'users @stream(initialCount: 1)'])
+    close = ' }' if '{' in parent else ''
+    x = rng.choice(leafs + ['best { name }', 'nnBest { id age }'])
+    y, z, w = rng.sample(leafs, 3)
+    a_extra = rng.choice(['', '', y + ' ', f'{y} {z} '])
+    b_own = rng.choice(['', '', '', (y + ' ') if a_extra else '', w + ' '])
+    c_extra = rng.choice(['', '', ' ' + z])
+    c = f'... @defer(label: "C") {{ {x}{c_extra} }}'
+    b = f'... @defer(label: "B") {{ {b_own}{c} }}'
+    a_parts = [a_extra + x, b]
+    rng.shuffle(a_parts)
+    a = f'... @defer(label: "A") {{ {" ".join(a_parts)} }}'
+    return f'query Q {{ {parent} {{ {rng.choice(["id", "name", w])} {a} }}{close} }}'
+
+
 _gen_inc = {}
 
 
@@ -187,6 +206,8 @@ def gen_request(seed, p_defer=0.35, p_stream=0.35):
         return schema, shared_fragment_stream_doc(rng), {}, rng
     if seed % 11 == 3:
         return schema, nested_shared_defer_doc(rng), {}, rng
+    if seed % 11 == 2:
+        return schema, triple_nested_defer_doc(rng), {}, rng
     if seed % 11 == 4:
         # mutations: root fields run one after another, the deferred / streamed parts of each belong to one payload stream
         g = DocGen(schema, rng, ops=('mutation',), max_depth=3, p_defer=0.5, p_stream=0.5)
